@@ -1,4 +1,4 @@
-From CL Require Import Model.Convert Gen.UnitsToml Model.Standards.
+From CL Require Import Model.Convert Gen.UnitsToml Model.Standards Model.Scale Model.RecipeConvert.
 Require Extraction.
 Require ExtrOcamlBasic.
 Extraction Language OCaml.
@@ -7,4 +7,4 @@ Definition bundled : outcome (option converter) := build_file file si_ratios.
 (* evaluated, so that the extracted table is plain data (no Coq strings) *)
 Definition standards_x := Eval vm_compute in standards.
 Extraction "conv_model.ml" bundled new_approx conv_convert convert_impl fit symbol unit_at
-  conversions Qred standards_x.
+  conversions Qred standards_x recipe_convert.
